@@ -407,6 +407,11 @@ ExecNode(pr, prefix, nd, args, st, step, mode) ==
         ELSE IF r.status = "paused" THEN
            [base EXCEPT !.status = "pause", !.w = r.w, !.pause = r.pause]
         ELSE [base EXCEPT !.status = "fail", !.w = r.w, !.err = r.err]
+  ELSE IF IsIntr(nd) /\ (\A j \in 1..nd.ndata : nd.outputs[j] \in DOMAIN st.vals) /\ ~Ran(st, nd.name) THEN
+     \* resume path: the answers are already in the state; the handler is not invoked
+     [base EXCEPT !.outs = [j \in 1..Len(nd.outputs) |->
+                             <<nd.outputs[j], IF j <= nd.ndata THEN st.vals[nd.outputs[j]] ELSE Sent>>],
+                  !.w = st.w]
   ELSE IF nd.cache /\ CacheFind(st.w.cache, CacheKey(nd, args)) # {} THEN
      \* cache hit: the function is not invoked; outputs (and a gate's decision) come from the entry
      LET i == CHOOSE i \in CacheFind(st.w.cache, CacheKey(nd, args)) : TRUE
@@ -414,11 +419,6 @@ ExecNode(pr, prefix, nd, args, st, step, mode) ==
      IN [base EXCEPT !.outs = e.outs, !.dec = e.dec,
                      !.w = [st.w EXCEPT !.cache = CacheTouch(st.w.cache, i),
                                         !.hits = Append(st.w.hits, [path |-> path, step |-> step])]]
-  ELSE IF IsIntr(nd) /\ (\A j \in 1..nd.ndata : nd.outputs[j] \in DOMAIN st.vals) /\ ~Ran(st, nd.name) THEN
-     \* resume path: the answers are already in the state; the handler is not invoked
-     [base EXCEPT !.outs = [j \in 1..Len(nd.outputs) |->
-                             <<nd.outputs[j], IF j <= nd.ndata THEN st.vals[nd.outputs[j]] ELSE Sent>>],
-                  !.w = st.w]
   ELSE IF Fails(nd, idx, args) THEN
      [base EXCEPT !.status = "fail", !.err = [path |-> path, kind |-> "body"]]
   ELSE IF IsIntr(nd) THEN
